@@ -17,7 +17,7 @@ import (
 // types whose String()/parse() follow the presentation grammar of Model/Present.v
 // (playout); tied to the model by the "covered" case.
 var coveredTypes = []uint16{1, 2, 3, 4, 5, 6, 7, 8, 9, 12, 13, 14, 15, 16, 17, 18, 19, 20, 21, 23, 24, 25, 26, 30, 31, 32, 33, 35, 36, 37, 39, 43, 44,
-	46, 47, 48, 49, 50, 51, 52, 53, 56, 57, 58, 59, 60, 61, 62, 63, 99, 100, 101, 102, 105, 107, 256, 257, 258, 261, 32768, 32769}
+	46, 47, 48, 49, 50, 51, 52, 53, 56, 57, 58, 59, 60, 61, 62, 63, 99, 100, 101, 102, 104, 105, 106, 107, 108, 109, 256, 257, 258, 261, 32768, 32769}
 
 func isCovered(t uint16) bool {
 	for _, c := range coveredTypes {
@@ -655,6 +655,13 @@ func emitRecords(r *Rng, tier string, types []uint16) (printed []string) {
 		{"x. 5 IN RRSIG type65 8 2 3600 20110403154150.5 4294967295 12345 example AAAA\n", "fields"}, {"x. 5 IN RRSIG a 8 2 3600 4294967296 0 1 e. AAAA\n", "fields"},
 		{"x. 5 IN RRSIG ANY rsasha256 2 3600 1 0 1 e. AAAA\n", "fields"}, {"x. 5 IN RRSIG BOGUS 8 2 3600 1 0 1 e. AAAA\n", "fields"}, {"x. 5 IN RRSIG TYPE65536 8 2 3600 1 0 1 e. AAAA\n", "fields"},
 		{"x. 5 IN RRSIG A 8 2 3600 20230229000000 0 1 e. AAAA\n", "fields"}, {"x. 5 IN RRSIG A 8 2 3600 22420101000000 19700101000000 1 e. AAAA\n", "fields"},
+		{"x. 5 IN EUI48 00-00-5e-00-53-2a\n", "fields"}, {"x. 5 IN EUI48 00-00-5E-00-53-2A\n", "fields"}, {"x. 5 IN EUI48 00-00-5e-00-53\n", "fields"}, {"x. 5 IN EUI48 00-00-5e-00-53-2a-\n", "fields"},
+		{"x. 5 IN EUI48 00:00:5e:00:53:2a\n", "fields"}, {"x. 5 IN EUI48 00-00-5e-00-53-2g\n", "fields"}, {"x. 5 IN EUI48 00-00-5e-00-53-_a\n", "fields"}, {"x. 5 IN EUI48 00-00-5e-00-53-+a\n", "fields"},
+		{"x. 5 IN EUI48 00005e-00-53-2a-11\n", "fields"}, {"x. 5 IN EUI48 00-00-5e-00-53-2a x\n", "fields"},
+		{"x. 5 IN EUI64 00-00-5e-ef-10-00-00-2a\n", "fields"}, {"x. 5 IN EUI64 FF-FF-FF-FF-FF-FF-FF-FF\n", "fields"}, {"x. 5 IN EUI64 00-00-5e-ef-10-00-00\n", "fields"}, {"x. 5 IN EUI64 00-00-5e-ef-10-00-00-2\n", "fields"},
+		{"x. 5 IN NID 10 0014:4fff:ff20:ee64\n", "fields"}, {"x. 5 IN NID 10 0014:4FFF:FF20:EE64\n", "fields"}, {"x. 5 IN NID 10 0014:4fff:ff20:ee6\n", "fields"}, {"x. 5 IN NID 10 0014:4fff:ff20:ee64ab\n", "fields"},
+		{"x. 5 IN NID 10 0014x4fff:ff20yee64\n", "fields"}, {"x. 5 IN NID 10 0014x4fffxff20xee64\n", "fields"}, {"x. 5 IN NID 10 0014:4fff:ff20:eg64\n", "fields"}, {"x. 5 IN NID 65536 0014:4fff:ff20:ee64\n", "fields"},
+		{"x. 5 IN NID 10\n", "fields"}, {"x. 5 IN L64 10 2001:0DB8:1140:1000\n", "fields"}, {"x. 5 IN L64 10 2001:0db8:1140:1000\n", "fields"}, {"x. 5 IN L64 10 2001:0db8:1140:1000 x\n", "fields"},
 		{"x. 5 IN RRSIG A 8 2 3600 1 0 1 e.\n", "fields"}, {"x. 5 IN RRSIG A 256 2 3600 1 0 1 e. AAAA\n", "fields"}, {"x. 5 IN SIG A 8 2 3600 20110403154150 20110303154150 12345 example. AAAA\n", "fields"},
 	} {
 		Emit("rr", []string{Hs(c.line)}, showRRAs(c.line, c.form))
